@@ -1,5 +1,6 @@
 import UF.Basic.Bytes
 import UF.Gen.Facts
+import UF.Spec.Mask
 /-
   C03 — model of the TEXT rewriting that turns a basic (mask) pattern into regular-expression
   source text:  rules/regex.go `patternToRegexp`, `specialCharReplacer`;  rules/network.go
@@ -46,43 +47,49 @@ def escapeInnerPipes (regex : Bytes) (k : Nat) : Option Bytes := do
   let c ← sliceZ? regex (lenZ regex - 1) (lenZ regex)
   pure (a ++ Bytes.replaceAll b Facts.MaskPipe escapedPipe ++ c)
 
-/-- Steps after the pipe escaping: `*`, `^`, start and end markers. -/
-def expandMasks (regex : Bytes) : Option Bytes := do
-  let regex := Bytes.replaceAll regex Facts.MaskAnyCharacter Facts.RegexAnyCharacter
-  let regex := Bytes.replaceAll regex Facts.MaskSeparator Facts.RegexSeparator
-  let regex ←
-    if Bytes.hasPrefix regex Facts.MaskStartURL then
-      (sliceZ? regex Facts.MaskStartURL.length (lenZ regex)).map (Facts.RegexStartURL ++ ·)
-    else if Bytes.hasPrefix regex Facts.MaskPipe then
-      (sliceZ? regex Facts.MaskPipe.length (lenZ regex)).map (Facts.RegexStartString ++ ·)
-    else some regex
+/-- "Replace start URL and pipes". -/
+def replaceStart (regex : Bytes) : Option Bytes :=
+  if Bytes.hasPrefix regex Facts.MaskStartURL then
+    (sliceZ? regex Facts.MaskStartURL.length (lenZ regex)).map (Facts.RegexStartURL ++ ·)
+  else if Bytes.hasPrefix regex Facts.MaskPipe then
+    (sliceZ? regex Facts.MaskPipe.length (lenZ regex)).map (Facts.RegexStartString ++ ·)
+  else some regex
+
+/-- The trailing pipe. -/
+def replaceEnd (regex : Bytes) : Option Bytes :=
   if Bytes.hasSuffix regex Facts.MaskPipe then
     (sliceZ? regex 0 (lenZ regex - 1)).map (· ++ Facts.RegexEndString)
   else some regex
+
+/-- Steps after the pipe escaping: `*`, `^`, start and end markers. -/
+def expandMasks (regex : Bytes) : Option Bytes :=
+  let regex := Bytes.replaceAll regex Facts.MaskAnyCharacter Facts.RegexAnyCharacter
+  let regex := Bytes.replaceAll regex Facts.MaskSeparator Facts.RegexSeparator
+  (replaceStart regex).bind replaceEnd
+
+/-- "Now escape `|` characters but avoid escaping them in the special places" (D2 repaired: the
+    second branch is guarded by `len(regex) > len(MaskPipe)`). -/
+def escapePipes (regex : Bytes) : Option Bytes :=
+  if Bytes.hasPrefix regex Facts.MaskStartURL then escapeInnerPipes regex Facts.MaskStartURL.length
+  else if regex.length > Facts.MaskPipe.length then escapeInnerPipes regex Facts.MaskPipe.length
+  else some regex
+
+/-- The shape before commit 88e6866 (defect D2): an unconditional `else`. -/
+def escapePipesOld (regex : Bytes) : Option Bytes :=
+  if Bytes.hasPrefix regex Facts.MaskStartURL then escapeInnerPipes regex Facts.MaskStartURL.length
+  else escapeInnerPipes regex Facts.MaskPipe.length
 
 /-- rules/regex.go `patternToRegexp` (current tree, D2 repaired).  `none` = Go panics. -/
 def patternToRegexpText (p : Bytes) : Option Bytes :=
   if isAnyPattern p then some Facts.RegexAnyCharacter
   else if isRegexPattern p then sliceZ? p 1 (lenZ p - 1)
-  else do
-    let regex := escapeSpecial p
-    let regex ←
-      if Bytes.hasPrefix regex Facts.MaskStartURL then escapeInnerPipes regex Facts.MaskStartURL.length
-      else if regex.length > Facts.MaskPipe.length then escapeInnerPipes regex Facts.MaskPipe.length
-      else some regex
-    expandMasks regex
+  else (escapePipes (escapeSpecial p)).bind expandMasks
 
-/-- The shape of the pinned tree before commit 88e6866 (defect D2): the second branch of the pipe
-    escaping was an unconditional `else`.  Kept only for the negation witness. -/
+/-- `patternToRegexp` of the pinned tree before the D2 repair.  Kept only for the negation witness. -/
 def patternToRegexpTextOld (p : Bytes) : Option Bytes :=
   if isAnyPattern p then some Facts.RegexAnyCharacter
   else if isRegexPattern p then sliceZ? p 1 (lenZ p - 1)
-  else do
-    let regex := escapeSpecial p
-    let regex ←
-      if Bytes.hasPrefix regex Facts.MaskStartURL then escapeInnerPipes regex Facts.MaskStartURL.length
-      else escapeInnerPipes regex Facts.MaskPipe.length
-    expandMasks regex
+  else (escapePipesOld (escapeSpecial p)).bind expandMasks
 
 /-- rules/network.go `NewNetworkRule`: `example.org/*` → `example.org^` (checked slice). -/
 def rewriteSlashStar (p : Bytes) : Option Bytes :=
@@ -109,5 +116,29 @@ def preparePatternText (pattern : Bytes) (matchCase : Bool) : Prepared :=
     if t == Facts.RegexAnyCharacter then .any
     else if matchCase then .text t
     else .text (lit "(?i)" ++ t)
+
+/-! ### Closed form of the text (proved equal to the step-by-step model in `UF/Proofs/MaskText.lean`) -/
+
+open UF.MaskSpec in
+/-- Text of the start marker. -/
+def startText : Start → Bytes
+  | .none => []
+  | .pipe => Facts.RegexStartString
+  | .dbl => Facts.RegexStartURL
+
+/-- Text of the end marker. -/
+def endText (e : Bool) : Bytes := if e then Facts.RegexEndString else []
+
+/-- Text of one body byte: `*`, `^`, an inner (literal) pipe, a byte of the escape table, any other byte. -/
+def emitByte (b : UInt8) : Bytes :=
+  if b == 42 then Facts.RegexAnyCharacter
+  else if b == 94 then Facts.RegexSeparator
+  else if b == 124 then escapedPipe
+  else escByte b
+
+/-- start text ++ one piece of text per body byte ++ end text. -/
+def maskText (p : Bytes) : Bytes :=
+  let (s, b, e) := UF.MaskSpec.splitMask p
+  startText s ++ b.flatMap emitByte ++ endText e
 
 end UF.Mask
